@@ -458,7 +458,10 @@ def c10(ctx):
 
 def c14(ctx):
     lifecycle(ctx, "C14")
-    stateless(ctx, "Spl", {"SplUn", "SplBin", "SplLin", "SplEval"}, prop_view="C14")
+    stateless(ctx, "Spl", {"SplUn", "SplBin", "SplLin", "SplEval", "SplNew"}, prop_view="C14")
+    # read accessors, index translations, window algebra: operands are named non-const objects in the sequential harness
+    stateless(ctx, "Sup", {"GridFind", "GridAt", "SupNew", "SupRead", "SupIdx", "SupBin", "SupTri"}, prop_view="C14")
+    stateless(ctx, "Gen", {"Gen"}, prop_view="C14", case_filter=lambda c: c["p"] <= 2)
     stateless(ctx, "Ops", {"OpApply", "OpBF"}, prop_view="C14", case_filter=lambda c: c["tag"] in ("expr", "bf"))
     # interpolation called with named (non-const) data: support, ordinates and boundary conditions stay as they were
     stateless(ctx, "Interp", {"Interp"}, prop_view="C14")
@@ -672,12 +675,18 @@ def c18(ctx):
                 continue
             binp = build_family(fam, variant, cp, lines)
             for nt in counts:
-                for rd in range(rounds * 2):
-                    # two schedules: free-running sweeps, and lockstep phases in which neighbouring cases
-                    # (same operation / instantiation, different data) run at the very same time
-                    lock = rd % 2 == 1
-                    seq, ths, q, rc, err = vlib.exec_threaded(binp, lines, os.path.join(wd, "x"), nt, lockstep=lock)
-                    tag = {"op": "ThreadedRun", "family": fam, "variant": variant, "threads": nt, "lockstep": lock}
+                # three schedules: free-running sweeps; lockstep phases in which neighbouring cases (same operation /
+                # instantiation, different data) run at the very same time; "fresh": all threads run the same case in
+                # every phase and build the shared objects themselves, so that the FIRST use of every shared object
+                # (when lazily initialised state would be filled) happens in all threads at once
+                if quick:
+                    scheds = ("free", "fresh") if nt == counts[0] else ("lockstep", "fresh")
+                else:
+                    scheds = ("free", "lockstep", "fresh") * rounds
+                for rd, sched in enumerate(scheds):
+                    lock = sched
+                    seq, ths, q, rc, err = vlib.exec_threaded(binp, lines, os.path.join(wd, "x"), nt, schedule=sched)
+                    tag = {"op": "ThreadedRun", "family": fam, "variant": variant, "threads": nt, "schedule": sched}
                     if rc != 0 or "ThreadSanitizer" in err:
                         ctx.violations.append((tag, {"rc": rc, "report": err[-3000:]}, "threaded run failed / data race reported"))
                         continue
@@ -692,7 +701,7 @@ def c18(ctx):
                         ctx.violations.append((tag, {"quiescent": q}, "use_count of a shared grid block differs from the number of live handles at the quiescent point"))
                     ctx.cov["evaluations"] += len(lines) * nt
                     ctx.cov.setdefault("threaded_runs", []).append({"family": fam, "variant": variant, "threads": nt, "cases": len(lines)})
-                    ctx.cov["threaded_runs"][-1]["lockstep"] = lock
+                    ctx.cov["threaded_runs"][-1]["schedule"] = sched
                     if variant == "exact_thr" and rd == 0 and nt == counts[-1]:
                         # TLC judges the sequential log and the logs of two threads against the sequential contracts
                         for name, evs in (("seq", seq), ("t0", ths[0]), ("tlast", ths[-1])):
